@@ -239,6 +239,17 @@ PANIC_DEFS = (
 )
 
 
+COMBINATORS = {
+    'std::option::Option::<T>::map', 'std::option::Option::<T>::and_then', 'std::option::Option::<T>::ok_or',
+    'std::option::Option::<T>::unwrap_or', 'std::option::Option::<&T>::copied', 'std::option::Option::<&T>::cloned',
+    'std::option::Option::<T>::unwrap', 'std::option::Option::<T>::expect', 'std::option::Option::<T>::unwrap_or_default',
+    'std::result::Result::<T, E>::map', 'std::result::Result::<T, E>::and_then', 'std::result::Result::<T, E>::map_err',
+    'std::result::Result::<T, E>::ok', 'std::result::Result::<T, E>::unwrap_or', 'std::result::Result::<T, E>::unwrap',
+    'std::result::Result::<T, E>::expect', 'std::result::Result::<T, E>::is_ok', 'std::result::Result::<T, E>::is_err',
+    'std::ops::Try::branch',
+}
+
+
 class Frame:
     __slots__ = ('fn', 'fid', 'block', 'ret_path', 'ret_target', 'site', 'post')
 
@@ -432,6 +443,17 @@ class Interp:
                 else:
                     inner = ERR(self.project(src, (('v', 'Err'), ('f', '0'))))
                 return self.project(inner, proj[n + 2:])
+            if v[0] == 'opt_as_ref' and v[1][0] == 'ref' and tuple(proj[n:n + 2]) == (('v', 'Some'), ('f', '0')):
+                v = ('ref', (v[1][1][0], v[1][1][1] + (('v', 'Some'), ('f', '0'))))
+                return self.project(v, proj[n + 2:])
+            if v[0] in ('get', 'first', 'last') and tuple(proj[n:n + 2]) == (('v', 'Some'), ('f', '0')):
+                coll = v[1]
+                idx = v[2] if v[0] == 'get' else ('int', 0) if v[0] == 'first' else ('lastidx',)
+                if coll[0] == 'at':
+                    v = ('ref', (coll[1][0], coll[1][1] + (('i', idx),)))
+                else:
+                    v = ('elemref_at', coll, idx)
+                return self.project(v, proj[n + 2:])
             if v[0] == 'load':
                 r, p = v[1]
                 return ('load', (r, p + tuple(proj[n:])))
@@ -1039,6 +1061,28 @@ class Interp:
             ret = ('ret', site, decl)
             st.eff.append(io + (ret,))
             return self.fallible_result(st, dest, dest_ty, ret, site, decl, loopctx, work, finished, fr, t)
+
+        # Option/Result combinators on a value whose variant is unknown: decide the variant by forking
+        if decl in COMBINATORS and args and not is_agg(args[0]) and args[0][0] not in ('ref',):
+            a0 = args[0]
+            aty = t['args'][0].get('p', {}).get('ty', '') if t['args'][0]['k'] != 'const' else t['args'][0].get('ty', '')
+            isres = aty.startswith('std::result::Result<')
+            isopt = aty.startswith('std::option::Option<')
+            if isres or isopt:
+                kv = st.variants.get(a0)
+                if kv is None:
+                    s2 = st.fork()
+                    s2.variants[a0] = 1
+                    s2.cons.append((('discr', a0), 1))
+                    work.append(s2)          # re-executes this call with the variant known
+                    st.variants[a0] = 0
+                    st.cons.append((('discr', a0), 0))
+                    kv = 0
+                if isopt:
+                    args[0] = SOME(self.project(a0, (('v', 'Some'), ('f', '0')))) if kv == 1 else NONE
+                else:
+                    args[0] = OK(self.project(a0, (('v', 'Ok'), ('f', '0')))) if kv == 0 else \
+                        ERR(self.project(a0, (('v', 'Err'), ('f', '0'))))
 
         # std models
         m = self.model(st, fr, t, decl, rdef, args, site, dest, loopctx, work, finished)
